@@ -207,6 +207,11 @@ var worlds = []*wdef{
 			ev(alleg("C", v2, v1)),  // somebody else opens C
 			ev(alleg("D", v1, v3)),  // a new allegation against the frozen (or released) validator
 			ev(release(v3), stake(v3, 100000)),
+			// ANOTHER validator is convicted while the record of the released V3 (whose address is the smallest: the
+			// first record of every walk over the frozen validators) is still in the store. (Added after a seeded
+			// change - that walk stopping at the first RELEASED record instead of skipping it - escaped the worlds
+			// in which the only verdicts after a release hit the released validator itself.)
+			ev(vote("C", v2, true), vote("C", v4, true)),
 		},
 		depth: map[string]int{"quick": 5, "thorough": 7},
 		share: 0.4,
